@@ -779,7 +779,7 @@ def run(check: core.Check) -> None:
         "maximum_positional_args and both error-code defaults), plus 14 kinds of malformed configuration at every "
         "file/section with and without a command-line value. "
         f"History slice ({cfg3}): ONE real Options object per case (chains of <= {2 if quick else 3} slim files x cmdline) and "
-        f"every sequence of <= 3 lookups (kind in {list,int} x 4 modules) performed on it "
+        f"every sequence of <= 3 lookups (kind in {{list,int}} x 4 modules) performed on it "
         "through for_module(...).get_value_for; every lookup judged against the documented value, stored instances and class "
         "defaults compared before/after (every single-lookup case too); a sample performed by the real program in one run "
         "over several files. Simulation: rich 3-file space, all kinds and routes. "
